@@ -875,6 +875,7 @@ def run(ctx):
     ]
     # ---- 1. extraction ----------------------------------------------------------------------
     ext, drift = extract(ctx)
+    vp.log(f"C07: extraction done at {ctx.elapsed():.0f}s")
     drift_any = bool(drift)
     for dmsg in drift:
         print(f"DRIFT: {dmsg}")
@@ -895,6 +896,7 @@ def run(ctx):
     else:
         # ---- 2. TLC on the model instantiated with the extracted sequences --------------------
         witnesses, reach, failed = model_check(ctx, ext, known, quick)
+    vp.log(f"C07: model checking done at {ctx.elapsed():.0f}s")
     ctx.coverage["model_signatures"] = sorted(sig_str(s) for s in witnesses)
     ctx.coverage["model_invariants_failed"] = sorted({f"{c}:{i}" for c, i in failed})
 
@@ -936,9 +938,12 @@ def run(ctx):
             runs.append(f.result())
         for f in ffuts:
             fruns.append(f.result())
+    vp.log(f"C07: {len(jobs)} schedule replays, {len(grid)} grid runs, {len(faults)} fault runs done at {ctx.elapsed():.0f}s")
     for k in range(30 if quick else 300):
         runs.append(free_run(ctx, f"free-{k}", rng))
+    vp.log(f"C07: free runs done at {ctx.elapsed():.0f}s")
     nruns = node_level(ctx) + fruns      # judged by the property layer only (no counterpart in ProcessState.tla)
+    vp.log(f"C07: node level runs done at {ctx.elapsed():.0f}s")
     ctx.evaluations += len(runs) + len(nruns)
     ctx.distinct += len({json.dumps(r["records"], sort_keys=True) for r in runs + nruns})
     vacuous = refusal_coverage(ctx, [r for r in runs if r.get("kind") == "grid"], fruns)
@@ -957,6 +962,7 @@ def run(ctx):
         for s, ks in found.items():
             real.setdefault(s, []).extend(chunk[k] for k in ks)
         ctx.traces_validated += len(chunk)
+    vp.log(f"C07: property layer validated at {ctx.elapsed():.0f}s")
     ndiv = sum(1 for r in runs if r["diverged"])
     for c0 in range(0, len(runs), CH):
         chunk = runs[c0:c0 + CH]
@@ -972,6 +978,7 @@ def run(ctx):
     ctx.coverage["replays"] = {"stepped_and_free_runs": len(runs), "node_level_runs": len(nruns) - len(fruns),
                                "two_cleaner_grid_runs": len(grid), "fault_injected_attempts": len(fruns),
                                "diverged_from_model_schedule": ndiv}
+    vp.log(f"C07: state layer validated at {ctx.elapsed():.0f}s")
     ctx.coverage["real_signatures"] = {sig_str(s): len(v) for s, v in sorted(real.items())}
     for r in runs[:2]:
         ctx.sample({"replayed_interleaving": describe(r)})
